@@ -34,7 +34,7 @@ func NewAsciiSearchValues(vals string) AsciiSearchValues {
 func (s AsciiSearchValues) IndexOfAny(chars []rune) int {
 	for i := 0; i < len(chars); i++ {
 		c := chars[i]
-		if c > unicode.MaxASCII {
+		if c < 0 || c > unicode.MaxASCII {
 			continue
 		}
 		idx := c / 64
@@ -50,7 +50,7 @@ func (s AsciiSearchValues) IndexOfAny(chars []rune) int {
 func (s AsciiSearchValues) IndexOfAnyExcept(chars []rune) int {
 	for i := 0; i < len(chars); i++ {
 		c := chars[i]
-		if c > unicode.MaxASCII {
+		if c < 0 || c > unicode.MaxASCII {
 			return i
 		}
 		idx := c / 64
